@@ -25,83 +25,46 @@ class QUICOutputbuilder:
             self.server_port = self.default_port
 
     def build(self, metadata: bool):
-        pn = self.decrypted_traffic[0].src_packet.packet_num
-        ts = self.decrypted_traffic[0].src_packet.ts
-        isserver = self.decrypted_traffic[0].src_packet.isserver
-        packets = bytearray()
+        # One output datagram per input datagram: the exported frames are grouped by the capture timestamp and the
+        # direction of the QUIC packet they were carried in (coalesced packets share the timestamp of their datagram).
+        datagrams = []
         for frame in self.decrypted_traffic:
             data = None
             if metadata:
                 if frame.frame_type == 0x06:
                     data = frame.crypto
                 elif frame.frame_type == 0xfe:
-                    data = frame.supported_version
+                    data = frame.payload
             if frame.frame_type in [0x08, 0x09, 0x0a, 0x0b, 0x0c, 0x0d, 0x0e, 0x0f]:
                 data = frame.stream_data
             elif data is None:
                 continue
 
-            if frame.src_packet.packet_num == pn:
-                packets.extend(data)
-                continue
-            else:  # if packets number changes
-                if frame.src_packet.ts == ts:  # if same ts => same datagram
-                    pn = frame.src_packet.packet_num
-                    packets.extend(data)
-                    continue
-                else:  # if not same ts => different datagram
-                    if isserver:
-                        if not self.ipv6:
-                            packet = Ether(src=self.server_mac_address, dst=self.client_mac_address) / IP(
-                                src=self.server_ip,
-                                dst=self.client_ip) / UDP(
-                                dport=self.client_port, sport=self.server_port) / Raw(bytes(packets))
-                        else:
-                            packet = Ether(src=self.server_mac_address, dst=self.client_mac_address) / IPv6(
-                                src=self.server_ip,
-                                dst=self.client_ip) / UDP(
-                                dport=self.client_port, sport=self.server_port) / Raw(bytes(packets))
-
-                    else:
-                        if not self.ipv6:
-                            packet = Ether(src=self.client_mac_address, dst=self.server_mac_address) / IP(
-                                src=self.client_ip,
-                                dst=self.server_ip) / UDP(
-                                dport=self.server_port, sport=self.client_port) / Raw(bytes(packets))
-                        else:
-                            packet = Ether(src=self.client_mac_address, dst=self.server_mac_address) / IPv6(
-                                src=self.client_ip.encode(),
-                                dst=self.server_ip.encode()) / UDP(
-                                dport=self.server_port, sport=self.client_port) / Raw(bytes(packets))
-
-                    self.out.append((packet, ts))
-
-                    pn = frame.src_packet.packet_num
-                    ts = frame.src_packet.ts
-                    isserver = frame.src_packet.isserver
-                    packets = bytearray()
-                    packets.extend(data)
-
-        if isserver:
-            if not self.ipv6:
-                packet = Ether(src=self.server_mac_address, dst=self.client_mac_address) / IP(src=self.server_ip,
-                                                                                              dst=self.client_ip) / UDP(
-                    dport=self.client_port, sport=self.server_port) / Raw(bytes(packets))
+            ts = frame.src_packet.ts
+            isserver = frame.src_packet.isserver
+            if len(datagrams) > 0 and datagrams[-1][0] == ts and datagrams[-1][1] == isserver:
+                datagrams[-1][2].extend(data)
             else:
-                packet = Ether(src=self.server_mac_address, dst=self.client_mac_address) / IPv6(src=self.server_ip,
-                                                                                              dst=self.client_ip) / UDP(
-                    dport=self.client_port, sport=self.server_port) / Raw(bytes(packets))
+                datagrams.append((ts, isserver, bytearray(data)))
 
-        else:
-            if not self.ipv6:
-                packet = Ether(src=self.client_mac_address, dst=self.server_mac_address) / IP(src=self.client_ip,
-                                                                                              dst=self.server_ip) / UDP(
-                    dport=self.server_port, sport=self.client_port) / Raw(bytes(packets))
-            else:
-                packet = Ether(src=self.client_mac_address, dst=self.server_mac_address) / IPv6(src=self.client_ip,
-                                                                                              dst=self.server_ip) / UDP(
-                    dport=self.server_port, sport=self.client_port) / Raw(bytes(packets))
-
-        self.out.append((packet, ts))
+        for ts, isserver, payload in datagrams:
+            self.out.append((self.build_packet(isserver, bytes(payload)), ts))
 
         return self.out
+
+    def build_packet(self, isserver: bool, payload: bytes):
+        if isserver:
+            src_mac, dst_mac = self.server_mac_address, self.client_mac_address
+            src_ip, dst_ip = self.server_ip, self.client_ip
+            sport, dport = self.server_port, self.client_port
+        else:
+            src_mac, dst_mac = self.client_mac_address, self.server_mac_address
+            src_ip, dst_ip = self.client_ip, self.server_ip
+            sport, dport = self.client_port, self.server_port
+
+        if not self.ipv6:
+            ip_layer = IP(src=src_ip, dst=dst_ip)
+        else:
+            ip_layer = IPv6(src=src_ip, dst=dst_ip)
+
+        return Ether(src=src_mac, dst=dst_mac) / ip_layer / UDP(dport=dport, sport=sport) / Raw(payload)
